@@ -226,7 +226,9 @@ class Outcome:
             "wall_s": round(time.time() - self.t0, 2), "violations": len(self.violations),
             "known_findings_reproduced": self.known,
         }
-        (EVIDENCE / f"{self.pid}.json").write_text(json.dumps(ev, indent=1, default=str))
+        # a --replay run records what it did next to, not over, the evidence of the last full run
+        name = f"{self.pid}.replay.json" if getattr(self, "replay_mode", False) else f"{self.pid}.json"
+        (EVIDENCE / name).write_text(json.dumps(ev, indent=1, default=str))
         for k in self.known:
             print(f"KNOWN-FINDING: property={self.pid} {k}")
         for p, nf in self.violations:
